@@ -37,6 +37,8 @@ def _value(s):
 
 def build(tree, classes):
     if tree["cls"] == "atom":
+        if tree["s"] == "x":
+            return "23:59:60"          # atom "x": a string whose quoting depends on the decoder's grammar (a leap second)
         return classes["__qcls__"](1.5) if tree["s"] == "y" else tree["s"]     # atom "y": a value of a custom numeric class
     m = classes[tree["cls"]]()
     for k, sub in tree["items"]:
@@ -65,6 +67,14 @@ def _session(case):
                 pvl.dumps(_G["classes"]["PVLModule"](z=1))
             except Exception:
                 pass
+            # ... the session's own encoders asked for other options once, and their decoders shared with other encoders
+            for enc in list(encs.values()):
+                try:
+                    pvl.dumps(m.copy(), encoder=enc, indent=6, width=40, grammar=enc.grammar)
+                    E.PVLEncoder(decoder=enc.decoder)
+                    pvl.dumps(_G["classes"]["PVLModule"](z="12:00:60"), decoder=enc.decoder)
+                except Exception:
+                    pass
             p0 = heapops.project(m)
             evs.append({"ev": "other", "enc": "", "pre": p0, "post": p0, "text": "", "exc": ""})
             continue
